@@ -271,7 +271,9 @@ def rule_derive_split(ctx):
         np_ = norm_path(fn.path)
         if fn.from_macro or 'GraphQLClientCodegenOptions::' not in np_ or 'derives' not in np_.split('::')[-1]:
             continue
-        for c in H.walk(fn.body):
+        # the accessor and the private helpers it delegates the splitting to
+        nodes_ = [n_ for _f, n_ in H.deep_nodes(ctx, fn, fn.body, 2)]
+        for c in nodes_:
             if c.get('k') == 'mcall' and c['method'] in ('split', 'splitn', 'split_terminator', 'rsplit'):
                 lits = [a['lit']['v'] for a in c.get('args', []) if a.get('k') == 'lit']
                 if lits:
